@@ -336,6 +336,7 @@ def cmd_driver(prop, tier, only, jobs, seed):
                             samples=samples or [dict(note='no obligations ran')],
                             obligations=obligations, discharged=discharged, inconclusive=inconclusive,
                             instances=len(insts), instance_names=[i['name'] for i in insts],
+                            slowest_instances=sorted([(r.get('wall_s', 0), r['instance']['name']) for r in results], reverse=True)[:5],
                             canaries_expected=canaries, canaries_refuted=canaries_ok, reachability_witnesses=reach,
                             counterexample_replays=replays, stub_differentials=[dict(name=d[0], ok=bool(d[1])) for d in diffs],
                             functions_encoded=[dict(function=k, sha256=v) for k, v in sorted(funcs.items())],
